@@ -7,6 +7,8 @@ table, the remote set-up handler that maintains it (FPort 200) and the data path
        frames of deleted / replaced groups are ignored; payloads delivered under that counter (clauses "C05 (multicast)")
   C08  set-up handler - one answer per request in request order, the table changes exactly as answered, the answers are
        transmitted at once on FPort 200 (clauses "multicast set-up")
+  C09  the handler's own uplinks respect the limits of any other transmission: power no higher than the radio's maximum,
+       the regional maximum less antenna gain and the level the network commanded; frequency in band (clauses "C09 (multicast")
   C06  every uplink of these histories (including the handler's own and those whose receive procedure a multicast frame
        ended) carries a counter strictly greater than the previous one and a MIC under it (CertTrace.tla clauses)."""
 import glob, json, os, re
@@ -15,7 +17,7 @@ from . import core, macfam
 _MM = re.compile(r'^<<\s*"MISMATCH",\s*(\d+),\s*(?:<<\s*)?"([^"]*)"')
 _KN = re.compile(r'^<<\s*"KNOWN",\s*(\d+),\s*"([^"]+)"')
 
-CLAUSES = {"C05": ("C05 (multicast)",), "C08": ("multicast set-up", "McAddr", "McAppSKey", "McNetSKey", "maxMcFCount"), "C06": ()}
+CLAUSES = {"C05": ("C05 (multicast)",), "C09": ("C09 (multicast",), "C08": ("multicast set-up", "McAddr", "McAppSKey", "McNetSKey", "maxMcFCount"), "C06": ()}
 SIG_OWNER = {"mc-delete-ans-undefined-drops-group-id": "C08"}
 
 
@@ -79,7 +81,7 @@ def extra(pid):
         else:
             res = validate(pid, traces, d)
             pre = CLAUSES[pid]
-            _report(rep, pid, res, lambda name: name.startswith(pre), "set-up handler" if pid == "C08" else "data path")
+            _report(rep, pid, res, lambda name: name.startswith(pre), {"C08": "set-up handler", "C09": "uplinks of the set-up handler"}.get(pid, "data path"))
             sigs = open_signatures()
             seen = {}
             for r in res:
